@@ -20,7 +20,7 @@ from vlib.core import Stage, Violation, fail
 ID = "C11"
 MANIFEST = {
     "category": "exploration",
-    "text": "Stateful generated-input search (Hypothesis RuleBasedStateMachine): histories of up to 30 (thorough 60) steps over a pool of condition and AHB expressions with known structure - parse (cache hit or miss), parse a fresh string, send a string through the resolver (which replaces time conditions), use a string as the body of a package and expand it, edit a previously returned tree (incl. the expanded one) in place (replace / delete / append / clear / reverse children, overwrite the rule name, at any depth; overwrite the .value or .type attribute of a token), flood both caches with 1100 distinct strings so that the 1024-entry LRU evicts, evaluate under an assignment. Invariant after every step: the tree returned for a string matches the AST it was rendered from and equals the pristine deep copy of the first parse in this history; evaluation equals the reference evaluator. Caches are cleared at the start of every history. A second stage (cold-start) executes parse / flood / re-parse traces in a freshly started interpreter, so that the first use of both parsers in a process is judged as well; a quarter of the AHB pool strings (half of them there) carry no-break or other Unicode spaces inside their condition parts, which the AHB parser on its own must hand back unchanged.",
+    "text": "Stateful generated-input search (Hypothesis RuleBasedStateMachine): histories of up to 30 (thorough 60) steps over a pool of condition and AHB expressions with known structure - parse (cache hit or miss), parse a fresh string, send a string through the resolver (which replaces time conditions), use a string as the body of a package and expand it, edit a previously returned tree (incl. the expanded one) in place (replace / delete / append / clear / reverse children, overwrite the rule name, at any depth; overwrite the .value or .type attribute of a token), flood both caches with 1100 distinct strings so that the 1024-entry LRU evicts, evaluate under an assignment. Invariant after every step: the tree returned for a string matches the AST it was rendered from and equals the pristine deep copy of the first parse in this history; evaluation equals the reference evaluator. Caches are cleared at the start of every history. A second stage (cold-start) executes parse / flood / re-parse traces in a freshly started interpreter, so that the first use of both parsers in a process is judged as well; a quarter of the AHB pool strings (half of them there) carry no-break or other Unicode spaces inside their condition parts, which the AHB parser on its own must hand back unchanged. The cold-start traces also contain expressions nested 245-340 levels deep and in-place edits of the returned trees (the child interpreter has the default recursion limit).",
     "note": "Trusted: ref.match / the AHB split oracle, the reference evaluator, copy.deepcopy of lark trees, Hypothesis' stateful engine. Histories are bounded in length; the flood rule runs at most once per history. Process configuration by shard (vlib/sut.py; recorded in replay files): plain / parse caches preheated beyond their size / warnings attributed to ahbicht raised as errors / logging fully enabled with every record rendered.",
     "technique": "stateful / model-based property testing (rule-based state machine over parse-edit-evict histories with a cache-independent oracle)",
 }
@@ -78,10 +78,13 @@ class Interpreter:
         self.flooded = False
         self.reparse_after_edit = 0
         self.reparse_after_flood = 0
+        self.deep_reparse_after_edit = 0
         self.parses = 0
         self.floods = 0
 
     def add(self, entry):
+        if entry.get("deep") and "s" not in entry:
+            entry = dict(entry, s=deep_text(entry["deep"]))
         self.pool.append(entry)
 
     def step(self, op):
@@ -114,11 +117,20 @@ class Interpreter:
         self.parses += 1
         if index in self.edited:
             self.reparse_after_edit += 1
+            if entry.get("deep"):
+                self.deep_reparse_after_edit += 1
         if self.flooded:
             self.reparse_after_flood += 1
         history = f"(after {len(self.edited)} edited strings, {self.floods} floods)"
         # cache-independent oracle
-        if entry["kind"] == "ahb":
+        if entry.get("deep"):
+            # by construction: keys 1..depth+1 in pre-order, operators alternate, one more level per operand
+            rows = ref.dump_tree_flat(tree)
+            keys = [row[3] for row in rows if row[1] == "token"]
+            if keys != [str(k) for k in range(1, entry["deep"] + 2)] or max(row[0] for row in rows) != entry["deep"] + 1:
+                fail("structure", f"the expression nested {entry['deep']} levels deep parsed to a tree with {len(keys)} keys and depth "
+                     f"{max(row[0] for row in rows)} {history}")  # fmt: skip
+        elif entry["kind"] == "ahb":
             try:
                 _verify_ahb(tree, entry)
             except Violation as violation:
@@ -127,9 +139,10 @@ class Interpreter:
             fail("structure", f"{text!r} parsed to {tree!r}, which is not the expression's structure {history}")
         # history oracle
         key = (entry["kind"], text)
+        dump = ref.dump_tree_flat if entry.get("deep") else ref.dump_tree
         if key not in self.pristine:
-            self.pristine[key] = ref.dump_tree(tree)
-        elif self.pristine[key] != ref.dump_tree(tree):
+            self.pristine[key] = dump(tree)
+        elif self.pristine[key] != dump(tree):
             fail("history-dependent", f"{text!r}: tree differs from the one returned the first time {history}: {tree!r}")
         self.trees.append((index, tree))
 
@@ -180,8 +193,8 @@ class Interpreter:
         from ahbicht.expressions.expression_resolver import parse_expression_including_unresolved_subexpressions
 
         entry = self.pool[index]
-        if entry.get("raw"):
-            return  # only the AHB parser on its own accepts this spelling (see pool_entry)
+        if entry.get("raw") or entry.get("deep"):
+            return  # raw: only the AHB parser on its own accepts this spelling; deep: the parsers on their own (C02)
         res = sut.call(parse_expression_including_unresolved_subexpressions, entry["s"], False, True)
         if not res.ok:
             fail("rejected", f"resolver raised {res!r} for the well-formed {entry['s']!r}")
@@ -197,7 +210,7 @@ class Interpreter:
         from vlib.props.c10 import _providers
 
         entry = self.pool[index]
-        if entry["kind"] == "ahb":
+        if entry["kind"] == "ahb" or entry.get("deep"):
             return
         sut.configure(_providers({"7P": entry["s"]}))
         res = sut.call(parse_expression_including_unresolved_subexpressions, "[1] U [7P]", True, replace_time)
@@ -237,6 +250,7 @@ class Interpreter:
 
     def info(self):
         return {"reparse_after_edit": self.reparse_after_edit, "reparse_after_flood": self.reparse_after_flood,
+                "deep_reparse_after_edit": self.deep_reparse_after_edit,
                 "parses": self.parses, "floods": self.floods}  # fmt: skip
 
 
@@ -253,6 +267,10 @@ def classify(case, info):
         labels.append("edit-then-reparse")
     if info["reparse_after_flood"]:
         labels.append("evict-then-reparse")
+    if any(op["op"] == "add" and op["entry"].get("deep") for op in case["ops"]):
+        labels.append("with-deeply-nested-expression")
+    if info.get("deep_reparse_after_edit"):
+        labels.append("deeply-nested:edit-then-reparse")
     if any(op["op"] == "evaluate" for op in case["ops"]):
         labels.append("evaluates")
     return labels, bool(info["reparse_after_edit"] or info["reparse_after_flood"])
@@ -261,8 +279,19 @@ def classify(case, info):
 # ----------------------------------------------------------------------------------------------------- generators
 
 
+def deep_text(depth):
+    """[1] U ([2] O ([3] U ( ... [depth+1]))): operators alternate, so that every bracket is a level of the tree"""
+    text = f"[{depth + 1}]"
+    for level in range(depth, 0, -1):
+        text = f"[{level}]{' U ' if level % 2 else ' O '}({text})"
+    return text
+
+
 @st.composite
-def pool_entry(draw, size, kinds=("cond", "dom", "dom", "ahb"), raw_one_in=4):
+def pool_entry(draw, size, kinds=("cond", "dom", "dom", "ahb"), raw_one_in=4, deep_one_in=120):
+    if deep_one_in and draw(st.sampled_from(range(deep_one_in))) == 0:
+        # nested deeper than a recursive copy can follow; the text is generated from the depth when the entry is added
+        return {"kind": "cond", "deep": draw(st.sampled_from([245, 260, 300, 340]))}
     kind = draw(st.sampled_from(list(kinds)))
     if kind == "cond":
         ast = draw(gen.g_expr(max_atoms=size))
@@ -313,10 +342,19 @@ def strategy_cold(tier):
     @st.composite
     def build(draw):
         # the first uses of both parsers matter: always an AHB expression (half of them in a raw spelling) among them
-        entries = [draw(pool_entry(size, kinds=("ahb",), raw_one_in=2))] + draw(st.lists(pool_entry(size), min_size=1, max_size=4))
+        entries = [draw(pool_entry(size, kinds=("ahb",), raw_one_in=2, deep_one_in=0))] + draw(st.lists(pool_entry(size), min_size=1, max_size=4))
+        if draw(st.sampled_from(range(3))) == 0:
+            # Hypothesis raises the interpreter's recursion limit while it runs a test, the child process does not:
+            # only here a copy that recurses along the nesting of a tree meets the limit an application would have
+            entries.append({"kind": "cond", "deep": draw(st.sampled_from([245, 260, 300, 340]))})
         ops = [{"op": "add", "entry": entry} for entry in entries]
         order = draw(st.permutations(range(len(entries))))
         ops += [{"op": "parse", "i": i} for i in order]
+        for _ in range(draw(st.sampled_from([0, 2, 3, 4]))):
+            ops.append({"op": "edit", "t": draw(st.sampled_from(range(len(entries)))), "path": draw(st.lists(st.sampled_from(range(4)), max_size=3)),
+                        "edit": draw(st.sampled_from(EDITS)), "pos": draw(st.sampled_from(range(4)))})  # fmt: skip
+        if draw(st.booleans()):
+            ops += [{"op": "parse", "i": i} for i in order]
         ops.append({"op": "flood", "base": draw(st.integers(100000, 900000))})
         ops += [{"op": "parse", "i": i} for i in order]
         return {"ops": ops}
@@ -329,6 +367,10 @@ def classify_cold(case, info):
     first = next(op for op in case["ops"] if op["op"] == "parse")
     first_ahb = next(entries[op["i"]] for op in case["ops"] if op["op"] == "parse" and entries[op["i"]]["kind"] == "ahb")
     labels = ["first-parse=" + entries[first["i"]]["kind"], "first-ahb-parse=" + ("raw" if first_ahb.get("raw") else "plain")]
+    if info.get("deep_reparse_after_edit"):
+        labels.append("deeply-nested:edit-then-reparse")
+    if info.get("reparse_after_edit"):
+        labels.append("edit-then-reparse")
     return labels, bool(info["reparse_after_flood"])
 
 
@@ -412,8 +454,8 @@ STAGES = [
           budget={"quick": 60, "thorough": 600}, steps={"quick": 30, "thorough": 60},
           floors={"edit-then-reparse": 0.25, "evict-then-reparse": 0.03},
           shrink_budget={"quick": 1500, "thorough": 6000},
-          sample=lambda c: {"ops": [op if op["op"] != "add" else {"op": "add", "s": op["entry"]["s"], "kind": op["entry"]["kind"]} for op in c["ops"][:14]]}),
+          sample=lambda c: {"ops": [op if op["op"] != "add" else {"op": "add", "s": op["entry"].get("s", f"<nested {op['entry'].get('deep')} levels deep>"), "kind": op["entry"]["kind"]} for op in c["ops"][:14]]}),
     Stage(name="cold-start", kind="hyp", check=check_cold, classify=classify_cold, strategy=strategy_cold,
-          budget={"quick": 6, "thorough": 40}, floors={"first-ahb-parse=raw": 0.1}, shrink_budget={"quick": 30, "thorough": 200},
-          sample=lambda c: {"strings": [op["entry"]["s"] for op in c["ops"] if op["op"] == "add"]}),
+          budget={"quick": 6, "thorough": 40}, floors={"first-ahb-parse=raw": 0.1, "deeply-nested:edit-then-reparse": 0.03}, shrink_budget={"quick": 30, "thorough": 200},
+          sample=lambda c: {"strings": [op["entry"].get("s", f"<nested {op['entry'].get('deep')} levels deep>") for op in c["ops"] if op["op"] == "add"]}),
 ]  # fmt: skip
